@@ -577,8 +577,7 @@ Lemma wf_compact n os n' : wellformed n -> compact n os = Ok n' ->
     (forall c', In c' (map fst (nodes n')) <-> exists c, In c (map fst (nodes n)) /\ compact_keeps n c = true /\ c' = compact_map n c))).
 Proof.
   rewrite <- !WF_wellformed. intros W H. apply compact_spec in H as (W' & _ & _ & [->|(A & B & C)]); auto.
-  - split; [exact W'|]. split; [lia|]. split; [right; reflexivity|left; reflexivity].
-  - split; auto. fold (keys (nodes n)) in *. unfold kept, cdec in B. unfold compact_keeps, compact_decims.
+  split; auto. fold (keys (nodes n)) in *. unfold kept, cdec in B. unfold compact_keeps, compact_decims.
     split; [lia|]. split; [auto|]. right. split; [exact B|exact C].
 Qed.
 
